@@ -354,5 +354,37 @@ func (e *Engine) failsOnlyInsideGuard(o *Obligation, kf *KnownFinding) bool {
 	b.WriteString(sx("assert", o.PC) + "\n")
 	b.WriteString(sx("assert", sNot(o.Prop)) + "\n")
 	r := runQuery(b.String(), nil, e.timeoutS*3)
-	return r.Status == "unsat"
+	if r.Status != "unsat" {
+		return false
+	}
+	if kf.Instead == "" {
+		return true
+	}
+	// inside the guard the code must still show exactly the recorded (defective) behaviour,
+	// so that a different violation of the same clause is not hidden by the finding
+	if o.scope == nil {
+		return false
+	}
+	ix, err := parseSpecExpr(kf.Instead)
+	if err != nil {
+		fmt.Println("warning: bad 'instead' in known finding:", err)
+		return false
+	}
+	n1 := len(c.cmds)
+	alt := o.scope.boolOf(ix)
+	extra2 := append([]string(nil), c.cmds[n1:]...)
+	c.cmds = c.cmds[:n1]
+	var b2 strings.Builder
+	b2.WriteString(smtPrelude)
+	for _, cmd := range c.cmds[:o.NCmds] {
+		b2.WriteString(cmd + "\n")
+	}
+	for _, cmd := range append(extra, extra2...) {
+		b2.WriteString(cmd + "\n")
+	}
+	b2.WriteString(sx("assert", g) + "\n")
+	b2.WriteString(sx("assert", o.PC) + "\n")
+	b2.WriteString(sx("assert", sNot(alt)) + "\n")
+	r2 := runQuery(b2.String(), nil, e.timeoutS*3)
+	return r2.Status == "unsat"
 }
